@@ -66,6 +66,7 @@ func main() {
 			"rotation trigger and start-up threshold are also measured for windows that contain a timeslot ceil(k*2^32/300) (k = 1, 2 and a seeded k) and for the highest window below 2^32, reached through the same pre-seeded signed record (trusted disk state); there the clock walks upward until the first rotation (one rotation per directory)",
 			"first-check episode (rotation gate open): wall-clock progress bound with a scheduler-responsiveness control. Time is taken from just before NewGCAServer to the first migrateReports (stamped in the rotating goroutine). Held as soon as ONE of up to 30 trials rotates in less than half a check period (a loop that sleeps a period first can never do that); violated only if at least 8 trials ALL took at least one period and a 1 ms watchdog goroutine saw no wake-up gap above period/4 in at least 5 of them; anything else is recorded as not established and fails nothing",
 			"start-ups after very long gaps (up to thousands of weeks) use fresh directories (no devices, cheap rotations) and one small populated server; the judgement right after start (rotation loop parked) only demands the current slot, the one after a single released loop iteration the whole acceptance range",
+			"start-up replay at window offsets near 2^32: validly signed reports of an authorized device for timeslots far before the window are appended to equipment-reports.dat while the server is down (trusted disk state); after the restart every occupied index k of the window must hold a report for timeslot offset+k",
 			"oldest acceptable slots: only when at least one rotation happened in the start-up episode under judgement are the reports for now-432 .. now-1 required to be storable (right after start and after one released loop iteration); a window that legitimately starts less than 432 slots before the clock without any rotation (genesis) is not judged",
 			"production build = tags 'verif' without 'test'; the verif tag only adds accessor functions (add-only hooks)",
 			"unix times at or beyond genesis+2^32 s and timeslots above floor((2^32-1)/300) are outside the property's quantifier; what the code returns just beyond is recorded, not judged",
@@ -1575,6 +1576,72 @@ func childExtremesHigh(b run.Batch, r *ev.Result) {
 			return
 		}
 	}
+	// ---- start-up replay of the report log (integrateReport without the
+	// clock rule): validly signed reports of an authorized device for very
+	// early timeslots are appended to equipment-reports.dat (trusted disk
+	// state, like the pre-seeded record); after the restart no slot of the
+	// window may hold a report whose timeslot is not offset+index.
+	if len(p.devs) > 0 {
+		d := p.devs[0]
+		early := []int64{0, 1, 100, 431, 432, 4031, 4032, endZ - two32 - 1, endZ - two32, endZ - two32 + 1, p.rng.Int63n(4032), p.rng.Int63n(1 << 20), int64(off) - 1, int64(off) - 4032}
+		var extra []byte
+		n := 0
+		for i, s := range early {
+			if s < 0 || s >= int64(off) {
+				continue // only timeslots before the window
+			}
+			extra = append(extra, d.Report(uint32(s), uint64(9000+i)).Bytes()...)
+			n++
+		}
+		drv.SetClock(off)
+		run.Op("restart offset=%d with %d early reports appended to the report log", off, n)
+		if err := p.w.Close(); err != nil {
+			r.Inconc("close: " + err.Error())
+			return
+		}
+		f, err := os.OpenFile(filepath.Join(p.w.Dir, "equipment-reports.dat"), os.O_APPEND|os.O_WRONLY, 0644)
+		if err == nil {
+			_, err = f.Write(extra)
+			f.Close()
+		}
+		if err != nil {
+			r.Inconc("cannot append to the report log: " + err.Error())
+			return
+		}
+		drv.SetClock(off + 10)
+		arrived := drv.RotationArrive.Load()
+		if err := p.w.Start(); err != nil {
+			r.Violationf("restart-failed", map[string]interface{}{"offset": off}, "server with window offset %d does not restart after validly signed early reports were appended to its report log: %v", off, err)
+			return
+		}
+		if !waitParked(arrived) {
+			r.Inconc("the rotation loop did not reach its gate after a restart")
+			return
+		}
+		snap := p.w.S.VerifSnapshot(true)
+		r.Eval(n)
+		r.Count("replayed_early_reports", int64(n))
+		stored := 0
+		for id, arr := range snap.Reports {
+			if arr == nil {
+				continue
+			}
+			for k := range arr {
+				rep := arr[k]
+				if rep.PowerOutput == 0 && rep.Timeslot == 0 && rep.ShortID == 0 {
+					continue
+				}
+				stored++
+				if int64(rep.Timeslot) != int64(snap.Offset)+int64(k) {
+					r.Violationf("window-holds-report-of-foreign-timeslot", map[string]interface{}{"offset": snap.Offset, "index": k, "timeslot": rep.Timeslot, "device": id},
+						"after replaying the report log at window offset %d, index %d of device %d holds a report for timeslot %d; over the integers that index is timeslot %d (slot-offset = %d, not in [0, 4032))",
+						snap.Offset, k, id, rep.Timeslot, int64(snap.Offset)+int64(k), int64(rep.Timeslot)-int64(snap.Offset))
+					return
+				}
+			}
+		}
+		r.Count("replay_window_slots_checked", int64(stored))
+	}
 	r.Sample(map[string]interface{}{"kind": "extremes", "offset": off, "window_end_over_integers": endZ, "nows": nows, "reached_through": "pre-seeded signed empty allDeviceStats.dat record (trusted disk state)"})
 }
 
@@ -1605,6 +1672,8 @@ func post(c *ev.Check, outs []*run.Outcome) {
 	c.Require("measured_catchup", 1)
 	c.Require("accepted_low", 100)
 	c.Require("accepted_high", 100)
+	c.Require("replayed_early_reports", 20)
+	c.Require("replay_window_slots_checked", 100)
 	c.Require("accepted_high_window_end_beyond_2^32", 100)
 	c.Require("preseeded_high_offset_adopted", int64(len(highOffsets)))
 	c.Require("rotations_observed", 5)
